@@ -16,8 +16,8 @@ CLAIMED = {
         text="Kernel-checked theorems about the model of the three client defuns, stated over tables/consonants/loop bound "
              "re-extracted from chokan.el on every run; the model is tied to chokan.el by executing both on the same inputs.",
         note="No Emacs in the sandbox: chokan.el runs under tools/elisp_eval.py (validated on chokan-tests.el each run). "
-             "General idempotence is stated (C19_idempotent_statement) but proved only for table rows and unmapped strings; "
-             "it is checked differentially on all generated inputs. Axioms: propext, Classical.choice, Quot.sound.",
+             "All clauses, idempotence for every key sequence included (C19_idempotent), are proved on the model. "
+             "Axioms: propext, Classical.choice, Quot.sound.",
         design="5/C19"),
 }
 
@@ -52,12 +52,14 @@ CLAIMED["C17"] = dict(
               "ASCII-only output for every input over the client's class (induction on the conversion loop), client-inverse of "
               "every table unit by decide +kernel evaluating the client's model on the server's table + differential runs "
               "against kana_alpha::convert and chokan.el",
-    text="C17_total, C17_ascii (full client class), C17_output_chars, C17_client_inverse (all rows but the recorded findings), "
-         "C17_katakana_rows are kernel-checked; the models are tied to conversion.rs/lib.rs (shape-checked by the translator, "
+    text="C17_total, C17_ascii (full client class), C17_output_chars, C17_keeps_ascii (ASCII letters/digits stay in place and "
+         "order), C17_units (result = spelling of the first unit ++ conversion of the rest), C17_client_inverse (all rows but the "
+         "recorded findings), C17_katakana_rows are kernel-checked; the models are tied to conversion.rs/lib.rs (shape-checked by the translator, "
          "run differentially on ~7000 inputs) and to chokan.el (evaluator).",
     note="NFC is modelled on kana + combining (han)dakuten only; arbitrary Unicode is run on the implementation for totality but "
-         "not compared with the model. Concatenation-of-units and katakana/NFD equivalence are checked by the executable "
-         "oracle on the implementation, not proved. 16 client-inverse witnesses are known findings (known_findings.json). "
+         "not compared with the model. Katakana/NFD equivalence at string level is checked by the executable oracle on the "
+         "implementation, proved at row level only; the real server's GetAlphabeticCandidate is compared with the library. "
+         "16 client-inverse witnesses are known findings (known_findings.json). "
          "Axioms: propext, Classical.choice, Quot.sound.",
     design="5/C17")
 
@@ -110,11 +112,12 @@ CLAIMED["C03"] = dict(
               "+ differential run with real tries + oracle on the implementation's untruncated candidate lists",
     text="C03_sound (every converted word of every candidate is a dictionary entry under its own reading over exactly its stretch "
          "of the input), C03_head_word_is_node and C03_complete_head (for every independent standard word whose reading is a prefix "
-         "of the input, the list contains written form + rest of the input unless it is cut at n) are proved on the model; "
+         "of the input, the list contains written form + rest of the input unless it is cut at n) and C03_complete_after_prefix "
+         "(the same right after a leading prefix-affix for every word the engine's connection rule lets follow a prefix) are "
+         "proved on the model; "
          "soundness and completeness (head and after a prefix) are also checked on the implementation's untruncated candidate "
          "lists for dictionaries whose tries are built by the real trie::Trie.",
-    note="PARTIAL: the clause about words right after a leading prefix-affix is checked by the oracle, not proved. "
-         + KKC_NOTE, design="5/C03")
+    note="All three clauses are proved on the model with the regenerated score/merge tables. " + KKC_NOTE, design="5/C03")
 CLAIMED["C16"] = dict(
     engine="lean+corr_kkc",
     technique="Lean 4 proofs over the regenerated score/merge tables: proper and normal contexts build the same lattice and the "
@@ -140,11 +143,14 @@ CLAIMED["C05"] = dict(
 CLAIMED["C06"] = dict(
     engine="lean+corr_kkc+corr_server",
     technique="Lean 4 theorems on confirm/updateWord/expire and on node scores (unknown session/candidate change nothing, single "
-              "use, expiry boundary, count enters exactly one node score, context isolation) + differential runs at library and "
-              "server level (Verif.Dump, injected clock around the expiry boundary)",
-    text="Seven theorems kernel-checked on the model; re-ranking-only and score-rise are checked on the implementation's own "
-         "edge/node scores for every generated case; exact count changes per confirmation are checked on the real server.",
-    note="Untruncated-set equality with/without counts is checked by the oracle per case, not proved (needs C02's A* theorem). "
+              "use, expiry boundary, count enters exactly one node score, context isolation) and, from the optimality theorem of C02, "
+              "that any two states of the learned counts give the same untruncated set of candidate texts + differential runs at "
+              "library and server level (Verif.Dump, injected clock around the expiry boundary, never-issued candidate ids)",
+    text="Nine theorems kernel-checked on the model, among them C06_same_untruncated_set (learning only re-ranks: lattice, previous "
+         "relation and connectability of a path do not depend on the counts); re-ranking-only and score-rise are also checked on the "
+         "implementation's own edge/node scores for every generated case; exact count changes per confirmation are checked on the "
+         "real server.",
+    note="The per-path score rise (count x occurrences) is proved per node (C06_node_score) and checked per path by the oracle. "
          + SRV_NOTE, design="5/C06")
 CLAIMED["C07"] = dict(
     engine="lean+corr_server+corr_dic",
@@ -154,7 +160,7 @@ CLAIMED["C07"] = dict(
     text="C07_added_word_found, C07_monotone, C07_guess_conjugable are kernel-checked; every conjugated form (computed by the real "
          "dic crate and by the model) of every registration must be offered for its reading by the real server within 3 s.",
     note="PARTIAL: 'within bounded time' is the updater getting scheduled (observed). Candidate-level visibility combines these "
-         "lemmas with C03/C04, which are themselves partial. " + SRV_NOTE, design="5/C07")
+         "lemmas with C03 (completeness at the head) and C04 (the trie is the key set). " + SRV_NOTE, design="5/C07")
 CLAIMED["C08"] = dict(
     engine="lean+corr_server",
     technique="Lean 4 proofs: user.dic round trip for storable user dictionaries (from C10_file), accepted registrations are "
@@ -213,11 +219,12 @@ CLAIMED["C11"] = dict(
     technique="Lean 4 proofs about the builder's fold (every word that enters is stored under its reading, nothing else is stored, "
               "every reading spelled in the alphabet reaches the trie key set; induction over the word list) + the real chokan-dic "
               "binary on generated sources, image loaded through postcard and compared with the model",
-    text="C11_complete, C11_sound, C11_trie_keys (and buildMap_eq_fill tying them to the model of read_and_make_dictionary) are "
+    text="C11_complete, C11_sound, C11_trie_keys and C11_source (the model of read_and_make_dictionary stores exactly the "
+         "conjugated words of the source, each under its reading, and every reading over the alphabet is a trie key) are "
          "kernel-checked; images built by the real binary from sources up to 1500 (thorough 20000) entries are dumped, compared "
          "with the model, queried for trie membership, conversion and single-kanji lookup.",
     note="postcard/serde modelled as identity (validated by loading the real image); the stable sort is modelled by insertion sort "
-         "(permutation not yet proved); real trie = key set is C04. Axioms: propext, Classical.choice, Quot.sound.",
+         "(membership preservation proved); real trie = key set is C04. Axioms: propext, Classical.choice, Quot.sound.",
     design="5/C11")
 CLAIMED["C18"] = dict(
     engine="lean+corr_skk",
